@@ -299,30 +299,19 @@ func entries() []entry {
 		{name: "nbtns.NBTNSPacket.Unmarshal", run: func(in []byte) { (&nbtns.NBTNSPacket{}).Unmarshal(in) }, bases: func() [][]byte { return nonEmpty(nbnsBase()) }},
 		txt("nbtns.FirstLevelDecode", func(s string) { nbtns.FirstLevelDecode(s) }, "EIEPFDFECACACACACACACACACACACACA", "EIEPFDFECACACACACACACACACACACACA.corp.example"),
 		{name: "nbt.NBTTransport.Receive", run: func(in []byte) {
-			t := nbt.NewNBTTransport()
-			f := &feedConn{req: make(chan int, 4), grants: make(chan grant, 4), data: in}
-			done := make(chan struct{})
-			go func() { // grant everything, then EOF
-				for range f.req {
-					f.mu.Lock()
-					left := len(f.data) - f.pos
-					f.mu.Unlock()
-					if left == 0 {
-						f.grants <- grant{eof: true}
-					} else {
-						f.grants <- grant{n: left}
+			nbtReceiveAll(in)
+			// the adversary owns the stream: whatever length the (corrupted) header announces, it can also deliver that many
+			// octets -- the same bytes once more, followed by filler up to the announced 17-bit length
+			if len(in) >= 4 {
+				if l := int(in[1]&1)<<16 | int(in[2])<<8 | int(in[3]); 4+l > len(in) {
+					full := make([]byte, 4+l)
+					copy(full, in)
+					for i := len(in); i < len(full); i++ {
+						full[i] = byte(i)
 					}
-				}
-				close(done)
-			}()
-			t.VerifSetConn(f)
-			for i := 0; i < 4; i++ {
-				if _, err := t.Receive(); err != nil {
-					break
+					nbtReceiveAll(full)
 				}
 			}
-			close(f.req)
-			<-done
 		}, bases: func() [][]byte { return [][]byte{nbtFrame, append(append([]byte{}, nbtFrame...), nbtFrame...)} }},
 		// --- key credentials, SID, GPP, PKCS#7, UTF-16
 		{name: "keycredential.KeyCredential.FromBytes", run: func(in []byte) { (&keycredential.KeyCredential{}).FromBytes(in) }, bases: keyCredBases},
@@ -702,4 +691,32 @@ func mutString(ms []mutRec) string {
 		out = append(out, fmt.Sprintf("%s(p=%d,w=%d,v=%s)", m.K, m.P, m.W, string(m.V)))
 	}
 	return strings.Join(out, ";")
+}
+
+// nbtReceiveAll feeds the stream `in` (everything granted at once, then end of stream) to a fresh transport and receives until an error.
+func nbtReceiveAll(in []byte) {
+	t := nbt.NewNBTTransport()
+	f := &feedConn{req: make(chan int, 4), grants: make(chan grant, 4), data: in}
+	done := make(chan struct{})
+	go func() { // grant everything, then EOF
+		for range f.req {
+			f.mu.Lock()
+			left := len(f.data) - f.pos
+			f.mu.Unlock()
+			if left == 0 {
+				f.grants <- grant{eof: true}
+			} else {
+				f.grants <- grant{n: left}
+			}
+		}
+		close(done)
+	}()
+	t.VerifSetConn(f)
+	for i := 0; i < 4; i++ {
+		if _, err := t.Receive(); err != nil {
+			break
+		}
+	}
+	close(f.req)
+	<-done
 }
